@@ -451,7 +451,40 @@ def rule_printscope(ctx, prop: str) -> RuleResult:
         res.sample(f"{qn}: {n_push} scopes opened with push() (If body, If orelse, For body)")
         if not ok:
             res.add(Finding("PRINTSCOPE", PP, g.lineno, qn, "scopes", f"{qn} opens {n_push} scopes with env.push(); the bodies of If (both branches) and For each need their own"))
-    res.floor = 2
+    # the loop iterator is named IN the environment its body is printed with: the name chosen for it and
+    # the reservation of that name must be visible to everything bound inside the body.  Named in one child
+    # environment and the body printed in another, a nested `i` gets the same printed name as the enclosing one
+    for qn in ("_print_stmt", "_print_cursor_stmt"):
+        g = m.funcs.get(qn)
+        if g is None:
+            continue
+        for n in g.body_nodes():
+            if not (isinstance(n, ast.If) and "LoopIR.For" in ast.unparse(n.test)):
+                continue
+            res.instances += 1
+            res.nontrivial += 1
+            namers = [k for st in n.body for k in ast.walk(st) if isinstance(k, ast.Call) and isinstance(k.func, ast.Attribute) and k.func.attr in ("get_name", "new_name") and k.args and ast.unparse(k.args[0]).endswith(".iter")]
+            blocks = [k for st in n.body for k in ast.walk(st) if isinstance(k, ast.Call) and last_name(k) in ("_print_block", "_print_cursor_block") and len(k.args) >= 2]
+            ok = bool(namers) and bool(blocks)
+            why = "the iterator is not named here (moved into a helper?)" if not namers else ""
+            if ok:
+                envs_n = {ast.unparse(k.func.value) for k in namers}
+                pushes = {k.targets[0].id for st in n.body for k in ast.walk(st) if isinstance(k, ast.Assign) and isinstance(k.targets[0], ast.Name) and isinstance(k.value, ast.Call) and isinstance(k.value.func, ast.Attribute) and k.value.func.attr == "push"}
+                # the environment argument of the block printer: the argument that is an environment
+                # (a name bound to `.push()`, or a `.push()` call, or the enclosing `env` itself)
+                envs_b = set()
+                for k in blocks:
+                    cand = [ast.unparse(a) for a in k.args[1:] if (isinstance(a, ast.Name) and (a.id in pushes or a.id == "env")) or (isinstance(a, ast.Call) and isinstance(a.func, ast.Attribute) and a.func.attr == "push")]
+                    envs_b |= set(cand) if cand else {"<none>"}
+                ok = len(envs_n) == 1 and envs_n == envs_b and envs_n <= pushes
+                why = f"iterator named in `{sorted(envs_n)}`, body printed with `{sorted(envs_b)}`, child environments bound to names: {sorted(pushes)}"
+            res.ob(ok)
+            res.sample(f"{qn} For: iterator named in the one child environment its body is printed with: {ok}")
+            if not ok:
+                res.add(Finding("PRINTSCOPE", PP, n.lineno, qn, "for-iter-env",
+                                f"{qn}, For case: {why}. The iterator's name and its reservation must live in the single `env.push()` that the body is printed with; otherwise a symbol of the same "
+                                f"name bound inside the body (add_loop with the enclosing name, an inlined callee's loop) is printed with the enclosing iterator's name — silent capture on re-parse"))
+    res.floor = 3
     return res
 
 
